@@ -519,7 +519,13 @@ def _g3(run, M, base):
             return orig2(e, st)
         vr.ev_Attribute = ev_attr2
         ref = vr.run(ast.parse(REF_GUARD.replace("SHAPE", shp)).body, State({"self." + shp: (S("s0"), S("s1"))}))
-        sig = lambda outs: sorted((o.status, tuple(sorted(repr(c.key()) for c in o.conds))) for o in outs)
+        # compared by meaning, not by path structure: the guard passes exactly under the conjunction of the per-dimension conditions (the
+        # non-raising paths, with conditions flattened into conjuncts in De Morgan normal form) and raises on every other path
+        from ..vn import conjuncts
+
+        def sig(outs):
+            live = sorted(tuple(sorted(repr(x.key()) for c in o.conds for x in conjuncts(c))) for o in outs if o.status != "raise")
+            return (live, any(o.status == "raise" for o in outs))
         run.check(sig(code) == sig(ref), "G3", "Linop." + gname, g.loc(),
                   "raises exactly when some dimension differs from the advertised one (and the advertised one is not -1)",
                   "%s does not raise exactly on a mismatching dimension: paths %s" % (gname, [(o.status, cond_text(o.conds)) for o in code]),
